@@ -92,6 +92,19 @@ func genBlockRecv(r *RNG, classes []*GClass) bRecv {
 			return bRecv{"\"abc\"", m, [][]string{{t}}, "string:" + m}
 		case 5:
 			return bRecv{"(1..4)", "each", [][]string{{"Integer"}}, "range:each"}
+		case 6:
+			// calls WITH arguments whose block parameters depend on the receiver
+			if r.Bool() {
+				lit, e := elems()
+				m := Pick(r, []string{"max(1)", "min(1)", "count(1)"})
+				ps := [][]string{e, e}
+				if m == "count(1)" {
+					ps = [][]string{e}
+				}
+				return bRecv{lit, m, ps, "array-with-argument:" + strings.SplitN(m, "(", 2)[0]}
+			}
+			c1, c2 := Pick(r, scal), Pick(r, scal)
+			return bRecv{"{a: " + nLit(c1) + "}", "merge({b: " + nLit(c2) + "})", [][]string{{"Symbol"}, {c1}, {c2}}, "hash:merge"}
 		default:
 			// a generated configured class with declared scalar block parameters
 			var cands []struct {
